@@ -241,3 +241,9 @@ pub fn runtime_handle() -> ckb_async_runtime::Handle {
     H.get_or_init(ckb_async_runtime::new_background_runtime)
         .clone()
 }
+
+/// Virtual time (process-wide). The guard is kept alive for the whole process.
+pub fn set_time(ms: u64) {
+    static G: OnceLock<ckb_systemtime::FaketimeGuard> = OnceLock::new();
+    G.get_or_init(ckb_systemtime::faketime).set_faketime(ms);
+}
